@@ -332,6 +332,18 @@ class Verdict:
             print(f'  {summary[:300]}')
         if len(self.violations) > 50:
             print(f'  ... and {len(self.violations) - 50} more violations')
+        if self.violations:
+            hist = {}
+            for summary, replay in self.violations:
+                f = (replay or {}).get('fail') or {}
+                names = []
+                for c in f.get('c', []) if isinstance(f, dict) else []:
+                    names.append(c[0] if isinstance(c, list) else str(c))
+                if not names:
+                    names = [summary.split(':')[-1].strip()[:60]]
+                for n in set(names):
+                    hist[n] = hist.get(n, 0) + 1
+            print('  failing clauses: ' + ', '.join(f'{k} x{n}' for k, n in sorted(hist.items())))
         cov = dict(self.cov)
         if not cov['samples']:
             cov['samples'] = ['(no sample recorded)']
